@@ -639,9 +639,9 @@ var c10Prims = []interface{}{"a", "b", "", "q\"x", 1, 2.5, true, false, nil, "a"
 func c10RandRESValue(r *rand.Rand) interface{} {
 	switch r.Intn(10) {
 	case 0:
-		return map[string]interface{}{"rid": fmt.Sprintf("svc.r.ref%d", r.Intn(3))}
+		return map[string]interface{}{"rid": fmt.Sprintf([]string{"svc.r.ref%d", "svc.r.~ref%d!", "svc.~.%d?q=~"}[r.Intn(3)], r.Intn(3))}
 	case 1:
-		return map[string]interface{}{"rid": fmt.Sprintf("svc.r.ref%d", r.Intn(3)), "soft": true}
+		return map[string]interface{}{"rid": fmt.Sprintf([]string{"svc.r.ref%d", "svc.r.}ref%d~"}[r.Intn(2)], r.Intn(3)), "soft": true}
 	case 2:
 		return map[string]interface{}{"data": map[string]interface{}{"n": r.Intn(3), "l": []interface{}{1, "x"}}}
 	case 3:
